@@ -1,4 +1,5 @@
 import Hive.Model.WorkerPoolSched
+import Hive.Model.WorkerPoolGroup
 import Hive.Base.Proto
 /-!
 # Line protocol of `drv_c16`
@@ -13,6 +14,7 @@ namespace Hive.WP
 structure DrvSt where
   cancel : Bool := false
   mon : Option Mon := some Mon.init
+  tree : Hive.WPG.Tree := []
 
 def DrvSt.init : DrvSt := {}
 
@@ -20,7 +22,22 @@ def stepLine (s : DrvSt) (toks : List String) : DrvSt × String :=
   match toks with
   | ["cfg", _, c] => ({ cancel := c == "true", mon := some Mon.init }, "ok")
   | "run" :: _ => (s, "ok")
-  | ["group", "stub"] => (s, "ok")
+  | "group" :: _ => ({ s with tree := [] }, "ok")
+  | ["g", op, a] =>
+    let parsed : Option Hive.WPG.Op :=
+      match op, a.toNat? with
+      | "newgroup", some n => some (.newGroup (some n))
+      | "newpool", some n => some (.newPool n)
+      | "inc", some n => some (.inc n)
+      | "dec", some n => some (.dec n)
+      | "newgroup", none => if a == "-" then some (.newGroup none) else none
+      | _, _ => none
+    match parsed, op, a.toNat? with
+    | some o, _, _ =>
+      if o.ok s.tree then ({ s with tree := Hive.WPG.step s.tree o }, "ok " ++ Hive.Proto.showNatList ((Hive.WPG.step s.tree o).map (·.value)))
+      else (s, "skip")
+    | none, "wait", some g => (s, if Hive.WPG.waitChildrenReturns s.tree g then "returns" else "blocks")
+    | _, _, _ => (s, "bad-op")
   | ["quiet"] =>
     match s.mon with
     | some m => (s, if quietOk s.cancel m then "accept" else "reject quiet")
